@@ -157,6 +157,9 @@ def _exec(sim, op):
         for k in op["kinds"]:
             sim.kernel.spawn_faults.append(_fault(k))
             sim.rec("spawnfault", r=k if k else "ok")
+    elif o == "badspawn":
+        sim.kernel.bad_spawn[op["w"]] = op.get("kind", "RuntimeError")
+        sim.rec("badspawn", w=op["w"].lower(), r=op.get("kind", "RuntimeError"))
     elif o == "hookset":
         sim.hook_outcomes[(op["w"], op["h"])] = op["o"]
     elif o == "probe":
